@@ -393,6 +393,14 @@ func installPreState(t *rapid.T, r *rec.Recorder, w *world, ctx sdk.Context) str
 			g := newTagger(t)
 			g.rejPct = 0
 			m := g.metadata(w)
+			if chance(t, "preMetadata.genesisStyle", 50) {
+				// what a bank genesis typically carries: display metadata (with aliases, often) of a coin that has a
+				// supply and no token pair yet
+				base := rapid.SampledFrom([]string{"bcoin", "ibc/27394FB092D2ECCD56123C74F36E4C1F926001CEADA9CA97EA622B25F41E5EB2"}).Draw(t, "preMetadata.base")
+				m = newMetadata(base, "Coin "+base, "ibcC", uint32(rapid.SampledFrom([]int{6, 18}).Draw(t, "preMetadata.exp")))
+				m.DenomUnits[1].Aliases = [][]string{nil, {"x"}, {"x", "y"}}[rapid.IntRange(0, 2).Draw(t, "preMetadata.aliases")]
+				m.DenomUnits[0].Aliases = [][]string{nil, {"atom" + m.Display}}[rapid.IntRange(0, 1).Draw(t, "preMetadata.baseAliases")]
+			}
 			var verr error
 			if p := guard(func() { verr = m.Validate() }); p != nil || verr != nil {
 				r.Label("prestate:metadata rejected")
